@@ -16,6 +16,8 @@ package message
 
 import (
 	"bytes"
+	encoding "encoding/binary"
+	"io"
 	"sort"
 	"time"
 
@@ -165,12 +167,24 @@ func (f *Frame) Encode() []byte {
 	return snappy.Encode(nil, buffer.Bytes())
 }
 
+// FitsCount reports whether an encoded sequence, which starts with its number of elements,
+// is long enough to hold that many elements of at least minSize bytes each. The decoder
+// allocates for the declared count, so this needs to be checked for anything a peer sends.
+func FitsCount(buf []byte, minSize int) bool {
+	n, k := encoding.Uvarint(buf)
+	return k > 0 && n <= uint64(len(buf)-k)/uint64(minSize)
+}
+
 // DecodeFrame decodes the message frame from the decoder.
 func DecodeFrame(buf []byte) (out Frame, err error) {
 
 	// We need to allocate, given that the unmarshal is now no-copy. By using 'nil' as destination
 	// we make sure that the underlying buffer is calculated based on the decoded length.
 	if buf, err = snappy.Decode(nil, buf); err == nil {
+		if !FitsCount(buf, 4) { // a message takes at least 3 length prefixes and a ttl
+			return nil, io.EOF // declares more messages than the bytes that follow can hold
+		}
+
 		err = binary.Unmarshal(buf, &out)
 	}
 	return
